@@ -212,6 +212,13 @@ def flatten(case, nested_drops_passive=False) -> Flat:
                 if st.dst:
                     env[st.dst] = Ref(i)
                 continue
+            if op == "icmp":
+                # stdlib if_cmp: a three-way reference selection (same instance kind as if_then_else, one more value input)
+                tb = new("tocmp", uid, {}, [ins[0]], path)
+                i = new("ite", None, {}, [Ref(tb), ins[1], ins[2], ins[3]], path)
+                if st.dst:
+                    env[st.dst] = Ref(i)
+                continue
             i = new(op, uid, dict(st.kw), ins, path)
             if st.dst:
                 env[st.dst] = Ref(i)
@@ -495,10 +502,11 @@ def simulate(flat: Flat, emulate_stale=False, emulate_sampled_start=False, prese
                 # s.st = desired input index from the condition (0 none), s.pos = effective input index,
                 # s.base = identity (inst id) of the finally resolved non-reference target (-1 none).
                 c = S[i.ins[0].target.id]
+                sels = tuple(range(1, len(i.ins)))            # (1, 2) for if_then_else, (1, 2, 3) for if_cmp
                 if i.ins[0].target.id in ticked:
-                    s.st = 1 if c.val != 0 else 2
+                    s.st = (1 if c.val != 0 else 2) if len(i.ins) == 3 else (1 if c.val < 0 else 2 if c.val == 0 else 3)
                 eff = s.pos
-                if s.st in (1, 2):
+                if s.st in sels:
                     cand = i.ins[s.st].target
                     # a selected input that is itself a reference with nothing published yet leaves the output reference as is
                     if not (cand.op == "ite" and S[cand.id].pos == 0):
@@ -515,15 +523,15 @@ def simulate(flat: Flat, emulate_stale=False, emulate_sampled_start=False, prese
                 prev_final = s.base if s.pos else -1
                 # the wanted input is an unset reference: the published reference VALUE stays what it was (it is not re-resolved
                 # through the previously selected input, whose own retargets no longer reach this output)
-                frozen = s.st in (1, 2) and eff != s.st and s.pos != 0
+                frozen = s.st in sels and eff != s.st and s.pos != 0
                 s.pos = eff
                 final = -1
                 if frozen:
                     final = prev_final
-                elif eff in (1, 2):
+                elif eff in sels:
                     cur = i.ins[eff].target
                     hops = 0
-                    while cur.op == "ite" and S[cur.id].pos in (1, 2) and hops < 50:
+                    while cur.op == "ite" and S[cur.id].pos >= 1 and hops < 50:
                         cur = cur.ins[S[cur.id].pos].target
                         hops += 1
                     final = cur.id if cur.op != "ite" else -1
@@ -541,7 +549,7 @@ def simulate(flat: Flat, emulate_stale=False, emulate_sampled_start=False, prese
                         R.stats["ref_retarget_to_invalid"] = R.stats.get("ref_retarget_to_invalid", 0) + 1
                     if i.ins[0].target.id in ticked and not retarget:
                         R.stats["ref_republished_same"] = R.stats.get("ref_republished_same", 0) + 1
-                    for q in (1, 2):
+                    for q in sels:
                         o = i.ins[q].target.id
                         if o in ticked and o != final and q != eff:
                             R.stats["ref_unselected_ticks"] = R.stats.get("ref_unselected_ticks", 0) + 1
@@ -651,6 +659,8 @@ def simulate(flat: Flat, emulate_stale=False, emulate_sampled_start=False, prese
                     out = vals[0]
                 elif op == "tobool":
                     out = 1 if vals[0] != 0 else 0
+                elif op == "tocmp":
+                    out = vals[0] % 3 - 1
                 elif op == "thrower":
                     out = vals[0] + 1
                 elif op == "add2" or op == "allvalid2":
@@ -685,7 +695,7 @@ def simulate(flat: Flat, emulate_stale=False, emulate_sampled_start=False, prese
                     out = None
                 else:
                     raise RuntimeError("model: op " + op)
-                if out is not None and op not in ("src", "ticker", "beacon", "pass", "pairall", "pairany", "count", "delay", "sched", "tobool"):
+                if out is not None and op not in ("src", "ticker", "beacon", "pass", "pairall", "pairany", "count", "delay", "sched", "tobool", "tocmp"):
                     out %= WRAP
                 if op == "acc":
                     s.st = out
